@@ -49,16 +49,37 @@ DecVals(v) ==
    ELSE <<v[1] * 4 + v[2] \div 16, (v[2] % 16) * 16 + v[3] \div 4, (v[3] % 4) * 64 + v[4]>> \o DecVals(SubSeq(v, 5, Len(v)))
 B64Dec(c) == LET s == Strip(c) IN DecVals([i \in 1..Len(s) |-> B64Val(s[i])])
 B64UrlDec(c) == B64Dec(c)
+\* the same two functions written position by position (no recursion: TLC evaluates them on inputs of hundreds of kilobytes);
+\* CodecMC.tla checks that they agree with the recursive definitions above on the enumerated domain
+EncIdx(url, b) ==
+   LET n == Len(b)
+       By(i) == IF i <= n THEN b[i] ELSE 0
+       C(v) == IF url THEN UrlChar(v) ELSE B64Char(v)
+   IN [j \in 1..(4 * ((n + 2) \div 3)) |->
+         LET r == (j - 1) % 4  i == 3 * ((j - 1) \div 4) + 1 IN
+         IF r = 0 THEN C(By(i) \div 4)
+         ELSE IF r = 1 THEN C((By(i) % 4) * 16 + By(i + 1) \div 16)
+         ELSE IF r = 2 THEN (IF i + 1 > n THEN PAD ELSE C((By(i + 1) % 16) * 4 + By(i + 2) \div 64))
+         ELSE (IF i + 2 > n THEN PAD ELSE C(By(i + 2) % 64))]
+DecIdx(c) ==
+   LET s == Strip(c)
+       V(i) == B64Val(s[i])
+   IN [j \in 1..((Len(s) * 3) \div 4) |->
+         LET r == (j - 1) % 3  i == 4 * ((j - 1) \div 3) + 1 IN
+         IF r = 0 THEN V(i) * 4 + V(i + 1) \div 16
+         ELSE IF r = 1 THEN (V(i + 1) % 16) * 16 + V(i + 2) \div 4
+         ELSE (V(i + 2) % 4) * 64 + V(i + 3)]
+Big(x) == Len(x) > 2000
 InB64Alphabet(c) == (c >= 65 /\ c <= 90) \/ (c >= 97 /\ c <= 122) \/ (c >= 48 /\ c <= 57) \/ c \in {43, 47, PAD}
 InUrlAlphabet(c) == (c >= 65 /\ c <= 90) \/ (c >= 97 /\ c <= 122) \/ (c >= 48 /\ c <= 57) \/ c \in {45, 95, PAD}
 
 Def(fn, in) ==
    CASE fn \in {"hexenc_c", "hexenc_ptr", "hexenc_string", "hexenc_buffer"} -> HexEnc(in)
      [] fn = "hexdec_c" -> HexDec(in)
-     [] fn \in {"b64enc_ptr", "b64enc_string"} -> B64Enc(in)
-     [] fn = "b64dec" -> B64Dec(in)
-     [] fn \in {"b64urlenc_ptr", "b64urlenc_string"} -> B64UrlEnc(in)
-     [] fn = "b64urldec" -> B64UrlDec(in)
+     [] fn \in {"b64enc_ptr", "b64enc_string"} -> IF Big(in) THEN EncIdx(FALSE, in) ELSE B64Enc(in)
+     [] fn = "b64dec" -> IF Big(in) THEN DecIdx(in) ELSE B64Dec(in)
+     [] fn \in {"b64urlenc_ptr", "b64urlenc_string"} -> IF Big(in) THEN EncIdx(TRUE, in) ELSE B64UrlEnc(in)
+     [] fn = "b64urldec" -> IF Big(in) THEN DecIdx(in) ELSE B64UrlDec(in)
      [] fn \in {"u8hex", "u16hex", "u32hex", "u64hex"} -> UintToHex(in)
      [] fn \in {"hexu8", "hexu16", "hexu32", "hexu64"} -> HexToUint(in)
 =============================================================================
